@@ -167,7 +167,7 @@ def gen_options(rng, mft: dict, mode: str, stream: str, kind: str) -> list:
             add("time", ["direct", "head", "http-ntp", "iso", "ntp", "sntp", "xsd"], .5)
             add("drift", ["0", "3", "10", "-7"], .2)
         # (a long buffer with a SegmentTimeline costs seconds per request: every entry is rendered)
-        add("depth", ["0", "1", "20", "60", "120", "300"], 1.0 if kind == "multi" else .5)
+        add("depth", ["0", "1", "20", "60", "120", "300"], 1.0 if kind in ("multi", "patch") else .5)
         add("start", ["epoch", "today", "month", "year", "now", "2023-11-05T01:02:03Z", "2024-01-01T05:30:00+05:30"], .4)
     if "segmentTimeline" in f:
         add("timeline", ["0", "1"], .5)
